@@ -1,4 +1,5 @@
 import GdslModel.Lemmas.Dfs
+import GdslModel.Lemmas.Extra
 /-!
 # C05 — depth-first search finds a valid simple path iff one exists
 -/
@@ -46,5 +47,31 @@ example : (searchPath (K := Nat) (E := Nat)
     (fun u => if u = 0 then [(0, 9), (1, 0), (2, 2)] else if u = 1 then [(0, 3), (2, 4)] else if u = 2 then [(3, 5)] else [])
     (fun _ _ _ => true) (fun _ => 0) .dfs 0 (some 3) false 6).map (·.1) = some (some [(0, 1, 0), (1, 2, 4), (2, 3, 5)]) := by
   simp [searchPath, runLoop, dfsEdges, backtrack, backLoop]
+
+/-- depth-first search on a graph built by a history never runs out of fuel when given
+    `number of distinct keys + 1`: plain, transposed and undirected, any filter, target and mode
+    (`opKeys`, `history_closed…`: Lemmas/Extra.lean, stated in Props/C04.lean) -/
+theorem Dfs.history_fuel (ops : List (Op K E)) (acc : K → K → E → Bool) (nval : K → Int) (root : K)
+    (target : Option K) (cycle : Bool) (hr : root ∈ opKeys ops) :
+    (runLoop (outAdj (Di.run ops)) acc nval .dfs root target cycle ((opKeys ops).eraseDups.length + 1)).isSome = true ∧
+    (runLoop (inAdj (Di.run ops)) acc nval .dfs root target cycle ((opKeys ops).eraseDups.length + 1)).isSome = true ∧
+    (runLoop (unAdj (Un.run ops)) acc nval .dfs root target cycle ((opKeys ops).eraseDups.length + 1)).isSome = true := by
+  have hc := history_closed_eraseDups ops acc
+  have hr' := (mem_eraseDups_opKeys ops root).mpr hr
+  exact ⟨Dfs.fuel_enough _ acc nval root target cycle _ _ hc.1 hr' (Nat.lt_succ_self _),
+    Dfs.fuel_enough _ acc nval root target cycle _ _ hc.2.1 hr' (Nat.lt_succ_self _),
+    Dfs.fuel_enough _ acc nval root target cycle _ _ hc.2.2 hr' (Nat.lt_succ_self _)⟩
+
+/-- the form the driver uses: any node table containing the history's keys and the root, any fuel above its length -/
+theorem Dfs.history_fuel_of_nodes (ops : List (Op K E)) (acc : K → K → E → Bool) (nval : K → Int) (root : K)
+    (target : Option K) (cycle : Bool) (nodes : List K) (fuel : Nat)
+    (hk : ∀ k ∈ opKeys ops, k ∈ nodes) (hr : root ∈ nodes) (hf : nodes.length < fuel) :
+    (runLoop (outAdj (Di.run ops)) acc nval .dfs root target cycle fuel).isSome = true ∧
+    (runLoop (inAdj (Di.run ops)) acc nval .dfs root target cycle fuel).isSome = true ∧
+    (runLoop (unAdj (Un.run ops)) acc nval .dfs root target cycle fuel).isSome = true := by
+  have hc := history_closed ops acc nodes hk
+  exact ⟨Dfs.fuel_enough _ acc nval root target cycle _ _ hc.1 hr hf,
+    Dfs.fuel_enough _ acc nval root target cycle _ _ hc.2.1 hr hf,
+    Dfs.fuel_enough _ acc nval root target cycle _ _ hc.2.2 hr hf⟩
 
 end G
